@@ -393,7 +393,7 @@ def _box_scalarlike(x):
 def _unbox(x):
     if isinstance(x, Content):
         return x
-    raise TypeError("content argument must be a Content subtype")
+    raise TypeError("incompatible function arguments: content argument must be a Content subtype")
 
 
 class Iterator(object):
